@@ -67,6 +67,8 @@ func CompareKey(st atree.SlabStorage, v atree.Value, s atree.Storable) (bool, er
 	switch x := s.(type) {
 	case TV:
 		return x == tv, nil
+	case FS: // a key storable whose StoredValue() can fail: compared without calling it
+		return x.TV == tv, nil
 	case NK:
 		return x.TV() == tv, nil
 	case atree.SlabIDStorable:
@@ -88,6 +90,14 @@ type TableDigesterBuilder struct {
 	// CallHip makes the builder consult the hash-input provider like the library's own builder does
 	// (its result is not used): a failing provider then fails the request on collision-table maps too.
 	CallHip bool
+	// FailDigest makes Digest(hip, v) fail, FailLevel makes Digester.Digest(level) of the digesters handed
+	// out fail (in-range levels only), both with the RAW error ErrInjected: a caller-supplied DigesterBuilder
+	// / Digester, unlike atree.NewDefaultDigesterBuilder, which wraps the provider's error itself (C18).
+	FailDigest *FailSwitch
+	FailLevel  *FailSwitch
+	// FailedAtLevel / FailedKey: level and key of the Digester.Digest call that FailLevel made fail.
+	FailedAtLevel uint
+	FailedKey     TV
 }
 
 var _ atree.DigesterBuilder = &TableDigesterBuilder{}
@@ -104,14 +114,21 @@ func (b *TableDigesterBuilder) Digest(hip atree.HashInputProvider, v atree.Value
 			return nil, err
 		}
 	}
-	d := &tableDigester{}
+	if b.FailDigest.Hit() {
+		return nil, ErrInjected
+	}
+	d := &tableDigester{b: b, key: tv}
 	for l := uint(0); l < b.L; l++ {
 		d.digs = append(d.digs, atree.Digest(b.Fn(tv, l)))
 	}
 	return d, nil
 }
 
-type tableDigester struct{ digs []atree.Digest }
+type tableDigester struct {
+	digs []atree.Digest
+	b    *TableDigesterBuilder
+	key  TV
+}
 
 func (d *tableDigester) DigestPrefix(level uint) ([]atree.Digest, error) {
 	if level > uint(len(d.digs)) {
@@ -122,6 +139,10 @@ func (d *tableDigester) DigestPrefix(level uint) ([]atree.Digest, error) {
 func (d *tableDigester) Digest(level uint) (atree.Digest, error) {
 	if level >= uint(len(d.digs)) {
 		return 0, fmt.Errorf("level %d out of range", level)
+	}
+	if d.b != nil && d.b.FailLevel.Hit() {
+		d.b.FailedAtLevel, d.b.FailedKey = level, d.key
+		return 0, ErrInjected
 	}
 	return d.digs[level], nil
 }
